@@ -71,10 +71,11 @@ package destructive
 //@ spec func gvcChangeOK(c schema.Change) bool {
 //@ spec 	return (!GvcIs[*schema.DropSchema](c) || (c.(*schema.DropSchema) != nil && c.(*schema.DropSchema).S != nil)) &&
 //@ spec 		(!GvcIs[*schema.DropTable](c) || (c.(*schema.DropTable) != nil && c.(*schema.DropTable).T != nil)) &&
-//@ spec 		(!GvcIs[*schema.ModifyTable](c) || (c.(*schema.ModifyTable) != nil && c.(*schema.ModifyTable).T != nil))
+//@ spec 		(!GvcIs[*schema.ModifyTable](c) || (c.(*schema.ModifyTable) != nil && c.(*schema.ModifyTable).T != nil)) &&
+//@ spec 		(!GvcIs[*schema.DropColumn](c) || (c.(*schema.DropColumn) != nil && c.(*schema.DropColumn).C != nil))
 //@ spec }
 // a statement's change list contains a (non-temporary) table drop among its first n changes
-//@ rec gvcAnyDropsTable
+//@ rec gvcAnyDropsTable fuel
 //@ spec func gvcAnyDropsTable(f *sqlcheck.File, sc *sqlcheck.Change, n int) bool {
 //@ spec 	if n <= 0 {
 //@ spec 		return false
@@ -82,15 +83,13 @@ package destructive
 //@ spec 	return gvcDropsTable(f, sc.Changes[n-1]) || gvcAnyDropsTable(f, sc, n-1)
 //@ spec }
 //@ spec func gvcHasDiag(ds []sqlcheck.Diagnostic, code string, pos int) bool {
-//@ spec 	return (exists k int :: 0 <= k && k < len(ds) && ds[k].Code == code && ds[k].Pos == pos)
+//@ spec 	return (some k int :: 0 <= k && k < len(ds) && ds[k].Code == code && ds[k].Pos == pos)
 //@ spec }
 
 //@ func (a *Analyzer) Analyze(ctx context.Context, p *sqlcheck.Pass) (err error)
 //@   requires a != nil && p != nil && p.File != nil && p.Reporter != nil
 //@   requires (forall i int :: 0 <= i && i < len(p.File.Changes) ==> p.File.Changes[i] != nil && p.File.Changes[i].Stmt != nil)
-//@   requires (forall i int, j int :: 0 <= i && i < len(p.File.Changes) && 0 <= j && j < len(p.File.Changes[i].Changes) ==> gvcChangeOK(p.File.Changes[i].Changes[j]))
-//@   requires (forall d *schema.DropColumn :: d != nil ==> d.C != nil)
-//@   requires (forall m *schema.ModifyTable, k int :: m != nil && 0 <= k && k < len(m.Changes) && GvcIs[*schema.DropColumn](m.Changes[k]) ==> m.Changes[k].(*schema.DropColumn) != nil)
+//@   requires (forall c schema.Change :: gvcChangeOK(c))
 //@   modifies GvcReports, GvcLastReport, struct(schema.GeneratedExpr)
 //@   ensures at-most-one-report: GvcReports == old(GvcReports) || GvcReports == old(GvcReports)+1
 //@   ensures drop-table-flagged-at-its-statement: (forall i int :: 0 <= i && i < len(p.File.Changes) &&
